@@ -223,6 +223,34 @@ def enum_contents(seed):
                     bad = f"{e.location!r}: target {e.target!r} came back as {b.target!r}"
                 if bad and len(fails) < 4:
                     fails.append({"model": {"location": e.location, "kind": type(e).__name__, "target": getattr(e, "target", None), "source": via}, "detail": f"[{via} source] " + bad})
+            # a second flush: entries replaced by others of the same kind at the same path (a rebuilt file, a re-pointed link), on the instance
+            # that wrote the file and on one that read it -- what is flushed is what comes back
+            if i % 4 == 0:
+                for who in ("the instance that wrote the file", "an instance that read the file"):
+                    cases += 1
+                    gen = 2 if who.startswith("the") else 3
+                    try:
+                        c2 = cf if gen == 2 else ContentsFile(src, mutable=True)
+                        if gen == 3:
+                            list(c2)
+                        repl = [fs.fsFile(nm, chksums={"md5": 0xdef00 + i + gen, "size": 1}, mtime=2000 + i + gen, data=data_source(b"y"), strict=False),
+                                fs.fsSymlink(nm + tails[0], target=f"retargeted {gen}", mtime=50 + i + gen, strict=False)]
+                        for e in repl:
+                            c2.add(e)
+                        c2.flush()
+                        back = {e.location: e for e in ContentsFile(src)}
+                        b0, b1 = back.get(repl[0].location), back.get(repl[1].location)
+                        bad = None
+                        if b0 is None or b1 is None or len(back) != len(ents):
+                            bad = f"entries after the second flush: {sorted(back)!r}"
+                        elif b0.chksums["md5"] != repl[0].chksums["md5"] or int(b0.mtime) != int(repl[0].mtime):
+                            bad = f"{nm!r}: flushed with md5 {repl[0].chksums['md5']:x} mtime {repl[0].mtime}, reads back md5 {b0.chksums['md5']:x} mtime {b0.mtime}"
+                        elif b1.target != repl[1].target or int(b1.mtime) != int(repl[1].mtime):
+                            bad = f"{repl[1].location!r}: flushed with target {repl[1].target!r}, reads back {b1.target!r}"
+                    except Exception as ex_:
+                        bad = f"raised {type(ex_).__name__}: {ex_}"
+                    if bad and len(fails) < 4:
+                        fails.append({"model": {"location": nm, "kind": "replacement of entries, second flush", "source": via, "instance": who}, "detail": f"[{via} source] entries replaced in place on {who}, flushed, read back: " + bad})
     return {"name": "C24.codec.bounded_enumeration", "bound": f"{len(names)} awkward paths (spaces incl. leading/trailing/double, '->' fragments, unicode, tabs, the 8 characters at which only str.splitlines() breaks a line) x 5 entry kinds (a device entry without a live node; names ending in blanks / tabs included) through a real file and through a data source",
             "cases": cases, "failures": fails}
 
